@@ -24,6 +24,7 @@ def main():
 
 ALL = {
     'C02': 'p_c02',
+    'C03': 'p_c03',
     'C04': 'p_c04',
 }
 
